@@ -770,4 +770,10 @@ SUBCHECKS = [
     SubCheck("forests", forest_case(), fn_forest, quick=600, thorough=2000),
 ]
 
-MATCHERS = {}
+def kf_mst_dense_attribute(case, violation):
+    """EdgeMinimalSpanningTree refuses a dense (ArrayAttribute) edge attribute as weights (only if the lead prefers a
+    known finding over scratch/fixes/C10-1-mst-dense-attribute-weights.diff)"""
+    return case.get("weights_mode") == "attr_dense" and violation.signature == "mst:construct:raises"
+
+
+MATCHERS = {"kf_mst_dense_attribute": kf_mst_dense_attribute}
